@@ -700,7 +700,19 @@ class Bench:
                 raise Violation("C20/sync-index", f"{what}: raised {type(e).__name__}: {e}", "sync/raise")
             sig, idx = out
             if int(idx) != d:
-                raise Violation("C20/sync-index", f"{what}: returned index {int(idx)}, delay is {d}", "sync/index")
+                # The delay is only identifiable if the record's best match really is at d.  For the edge delays
+                # (0 and l-1) the neighbouring alignment belongs to the *next* repetition and carries independent
+                # noise, so with 10 % noise on a short pattern it wins now and then (measured: 0.2-1 % of such
+                # cases).  Independent direct correlation over the lags 0..l-1: accept its maximiser as well.
+                tmpl = np.kron(bits.astype(float), np.ones(sps))
+                c_ = np.correlate(rx[:2 * L - 1], tmpl, mode="valid")
+                best = int(np.argmax(c_))
+                if op["sigma"] and best != d and int(idx) == best:
+                    self.rec.probe("SYNC: realised noise moved the correlation maximum away from d")
+                    results.append((int(idx), "ambiguous"))
+                    continue
+                raise Violation("C20/sync-index", f"{what}: returned index {int(idx)}, delay is {d} (independent "
+                                                  f"correlation maximum at {best})", "sync/index")
             s = np.asarray(sig.signal if isinstance(sig, self.ES) else sig)
             m = min(len(s), L, rx.size - d)
             if not isinstance(sig, self.ES) or m == 0 or not np.array_equal(s[:m].real, rx[d:d + m]):
